@@ -79,7 +79,7 @@ def monitor_flags(c_exe, lean_exe, prop, lines, keep_known=False):
     return (msgs if keep_known else _unknown(msgs)), rc, err
 
 
-def run(chk, profiles, total_quick=6000, total_thorough=60000, variant="hook", extra_targets=()):
+def run(chk, profiles, total_quick=10000, total_thorough=60000, variant="hook", extra_targets=()):
     quick = chk.tier == "quick"
     prop = chk.prop
     impl = vlib.build_impl(variant)
